@@ -84,6 +84,20 @@ def gen_ops(rng, tier):
                     for tt in nxt:
                         d = tt * US - u + rng.choice((-1, 0, 1))
                         yield ("add", rng.choice(("add", "plus_td", "roundtrip")), str(zi), w, f, 0, 0, d // US, d % US)
+    # calendar boundaries the carry code depends on: leap days and year ends of century / 400-multiple / ordinary leap years, read on
+    # the UTC clock (aware values are shifted there) and on the value's own clock (naive)
+    years = [4, 96, 100, 400, 800, 1200, 1600, 1900, 2000, 2100, 2400, 2800, 3600, 4000, 8000, 9996] + rng.sample(range(5, 9990), 12)
+    for y in years:
+        import calendar
+        days = [(2, 28), (3, 1), (12, 31), (1, 1)] + ([(2, 29)] if calendar.isleap(y) else [])
+        for (m, dd) in days:
+            for hh in (0, 12, 23):
+                base = Z.to_us(dt.datetime(y, m, dd, hh, 30))
+                for zr in ("n", str(D.ZI["UTC"]), "f0", "f32400", "f-28800", "f%d" % (rng.randint(-86399, 86399) * US)):
+                    if zr[0] == "f":
+                        zr = "f%d" % (int(zr[1:]) * (US if abs(int(zr[1:])) < 10 ** 6 else 1))
+                    for amt in ((1, 0, 0, 0), (-1, 0, 0, 0), (13, 0, 0, 0), (-13, 0, 0, 0), (36, 0, 0, 0), (0, 0, 86400 * 2, 1), (0, -1500, 0, 0)):
+                        yield ("add", rng.choice(MODES), zr, base, 0) + amt
     n = {"quick": 6000, "thorough": 300000, "widen": 60000}[tier]
     for _ in range(n):
         zr = rng.choice(("n", "f0", "f%d" % (rng.randint(-86399, 86399) * US), "utc"))
